@@ -34,12 +34,12 @@ Theorem save_obj_load f c t pad cb f' pages :
   ogg_parse f = Ok pages -> ogg_f_streams_ok pages = true ->
   ogg_save_obj f c t pad cb = Ok f' ->
   exists olds news k,
-    cut_ok c t pad cb pages olds news k /\
+    cut_ok c t pad cb pages olds news k /\ ogg_f_inject c t pad cb f = Ok (olds, news) /\
     (ogg_aligned c pages k -> forall m, ogg_f_decode c (cut_d k) = Ok m -> ogg_load f' c = Ok m).
 Proof.
   intros Hp Hs H.
-  destruct (save_obj_packets f c t pad cb f' pages Hp Hs H) as (olds & news & k & K & P' & O & Pk).
-  exists olds, news, k. split; [exact K|]. intros (Hc & Ht & H1) m Hm.
+  destruct (save_obj_packets f c t pad cb f' pages Hp Hs H) as (olds & news & k & K & P' & O & Pk & Inj).
+  exists olds, news, k. split; [exact K|]. split; [exact Inj|]. intros (Hc & Ht & H1) m Hm.
   destruct (Pk Hc) as (post & E1 & E2). set (s := cut_s k) in *.
   destruct (ogg_f_unpage (filter (is_serial s) (cut_before k))) as [|x [|y pre']] eqn:Epre.
   { rewrite zlen_nil in H1. lia. }
@@ -96,7 +96,7 @@ Theorem save_load f c t cb f' pages :
   exists olds news k pad,
     cut_ok c t pad cb pages olds news k /\
     (ogg_aligned c pages k ->
-     (c = OFlac -> (exists h r, cut_p0 k = h :: r /\ h mod 128 = 4) /\ zlen (vc_render t) <= MAXSZ) ->
+     (c = OFlac -> exists h r, cut_p0 k = h :: r /\ h mod 128 = 4) ->
      ogg_load f' c =
      Ok (t, match c with
             | OFlac => -1
@@ -106,7 +106,7 @@ Theorem save_load f c t cb f' pages :
             end)).
 Proof.
   intros Hp Hs H. unfold ogg_save in H. destruct (ogg_open f c) as [[v pad]|e] eqn:Op; [|discriminate].
-  destruct (save_obj_load f c t pad cb f' pages Hp Hs H) as (olds & news & k & K & L).
+  destruct (save_obj_load f c t pad cb f' pages Hp Hs H) as (olds & news & k & K & _ & L).
   exists olds, news, k, pad. split; [exact K|]. intros Al Hfl.
   pose proof K as (_ & _ & _ & _ & _ & _ & _ & N & _).
   apply parse_iff in Hp as (Ef & _). rewrite <- Ef in N.
@@ -121,13 +121,13 @@ Theorem delete_load f c f' pages :
     ogg_open f c = Ok (vendor, pad) /\
     cut_ok c (mkVC vendor []) pad (Some (fun _ _ => 0)) pages olds news k /\
     (ogg_aligned c pages k ->
-     (c = OFlac -> (exists h r, cut_p0 k = h :: r /\ h mod 128 = 4) /\ zlen (vc_render (mkVC vendor [])) <= MAXSZ) ->
+     (c = OFlac -> exists h r, cut_p0 k = h :: r /\ h mod 128 = 4) ->
      ogg_load f' c = Ok (mkVC vendor [], match c with
                                          | OFlac => -1
                                          | _ => match c, pad with OOpus, _ :: _ => -1 | _, _ => 0 end end)).
 Proof.
   intros Hp Hs H. unfold ogg_delete, ogg_delete_obj in H. destruct (ogg_open f c) as [[v pad]|e] eqn:Op; [|discriminate].
-  destruct (save_obj_load f c _ pad _ f' pages Hp Hs H) as (olds & news & k & K & L).
+  destruct (save_obj_load f c _ pad _ f' pages Hp Hs H) as (olds & news & k & K & _ & L).
   exists olds, news, k, v, pad. split; [reflexivity|]. split; [exact K|]. intros Al Hfl.
   pose proof K as (_ & _ & _ & _ & _ & _ & _ & N & _).
   apply (L Al). apply (delete_packet_decode _ _ _ _ _ _ N); [intros _; exact (open_pad _ _ _ _ Op)|exact Hfl].
